@@ -1186,7 +1186,7 @@ class Engine:
                 self.oblige(st, "no_division_by_zero", BoolVal(False), "arith", node)
                 raise Unsupported("constant division by zero")
         if isinstance(a, str) and isinstance(op, ast.Mod):
-            raise Unsupported("%-formatting")
+            return fresh("formatted", StringSort())          # %-formatted message: an unspecified string
         za, zb = lift(a), lift(b)
         if z3.is_bool(za):
             za = If(za, IntVal(1), IntVal(0))
@@ -1611,6 +1611,8 @@ class Engine:
             return Abstract("slice", lo=a3[0], hi=a3[1], step=a3[2])
         if name == "dict" and not args:
             return PyDict(kwargs)
+        if name == "hasattr" and isinstance(args[0], Obj) and isinstance(args[1], str):
+            return args[1] in args[0].fields
         if name == "callable":
             return isinstance(args[0], Closure) or (isinstance(args[0], Abstract) and getattr(args[0], "callable", False))
         raise Unsupported(f"builtin {name}({', '.join(type(a).__name__ for a in args)})")
